@@ -79,6 +79,8 @@ def coq_type(t) -> str:
         return "fname"
     if isinstance(t, tuple) and t[0] == "S":
         return f"(list {coq_type(t[1])})"
+    if isinstance(t, tuple) and t[0] == "D":
+        return f"(list ({coq_type(t[1])} * {coq_type(t[2])}))"
     if isinstance(t, tuple) and t[0] == "R":
         return "(" + " * ".join(coq_type(x) for _, x in t[1]) + ")"
     if isinstance(t, tuple):
@@ -254,8 +256,9 @@ class Ctx:
                 ptypes[n] = t
             sub = Ctx(self.src_root, rel, tree, cls, self.prefix, self.consts, self.load_tree)
             sub.done, sub.emitted, sub.stack = self.done, self.emitted, self.stack
+            sub.calls, sub.strings = getattr(self, "calls", {}), getattr(self, "strings", {})
             coq_name = f"{self.prefix}__{node.name}" + (f"_{len([k for k in self.done if k[2] == node.name])}" if any(k[2] == node.name for k in self.done) else "")
-            fn = Fn(node, {"ptypes": ptypes, "consts": self.consts}, coq_name, sub)
+            fn = Fn(node, {"ptypes": ptypes, "consts": self.consts, "calls": getattr(self, "calls", {}), "strings": getattr(self, "strings", {})}, coq_name, sub)
             txt = fn.translate()
             self.emitted.append(txt)
             res = (coq_name, [n for n, _ in fn.params], fn.ret, fn.param_defaults)
@@ -412,6 +415,11 @@ class Fn:
                 name = self.gensym("quot")
                 hoist.append((name, f"py_div {a} {b}", Q))
                 return name, Q
+            if isinstance(e.op, ast.Add) and isinstance(ta, tuple) and ta[0] == "L" and isinstance(tb, tuple) and tb[0] == "L":
+                et = ta[1] if ta[1] is not None else tb[1]
+                if ta[1] is not None and tb[1] is not None and ta[1] != tb[1]:
+                    raise Unsupported("concatenation of lists of different element types")
+                return f"({a} ++ {b})", ("L", et)
             ops = {ast.Add: "+", ast.Sub: "-", ast.Mult: "*"}
             for k, o in ops.items():
                 if isinstance(e.op, k):
@@ -456,7 +464,7 @@ class Fn:
         if isinstance(e, ast.List):
             xs = [sub(x) for x in e.elts]
             if not xs:
-                raise Unsupported("empty list display")
+                return "[]", ("L", None)  # element type fixed by the first append / concatenation
             xs = [(qlit(t), Q) if ty == LIT else (t, ty) for t, ty in xs]
             ty0 = xs[0][1]
             if any(ty != ty0 for _, ty in xs):
@@ -469,6 +477,37 @@ class Fn:
             raise Unsupported(f"key {key}")
         if isinstance(e, (ast.ListComp, ast.SetComp)):
             return self.comprehension(e, env, hoist)
+        if isinstance(e, ast.DictComp):  # {k: v for x in L}: association list in insertion order; lookups take the last entry
+            if len(e.generators) != 1 or e.generators[0].ifs or e.generators[0].is_async:
+                raise Unsupported("dict comprehension with conditions or several generators")
+            g = e.generators[0]
+            it, tit = self.expr(g.iter, env, hoist)
+            if not (isinstance(tit, tuple) and tit[0] == "L"):
+                raise Unsupported("dict comprehension over something else than a list")
+            env2 = dict(env)
+            binder, opening, closing = self.bind_target(g.target, tit[1], env2)
+            if opening:
+                raise Unsupported("dict comprehension target")
+            kx, tk = self.expr(e.key, env2, [], True)
+            vx, tv = self.expr(e.value, env2, [], True)
+            if tk != Z:
+                raise Unsupported("dict keys other than identifiers")
+            return f"(map (fun {binder} => ({kx}, {vx})) {it})", ("D", Z, tv)
+        if isinstance(e, ast.Subscript) and not isinstance(e.slice, ast.Slice):
+            h2 = []
+            try:
+                dv, td = self.expr(e.value, env, h2, pure)
+            except Unsupported:
+                dv, td = None, None
+            if isinstance(td, tuple) and td[0] == "D" and not h2:
+                kx, tk = self.expr(e.slice, env, hoist, pure)
+                if tk != td[1]:
+                    raise Unsupported("dict key type")
+                if pure:
+                    raise Unsupported("dict lookup in a position that cannot fail")
+                name = self.gensym("val")
+                hoist.append((name, f"py_dict_get {dv} {kx}", td[2]))
+                return name, td[2]
         if isinstance(e, ast.Subscript):
             v, tv = sub(e.value)
             s = e.slice
@@ -549,9 +588,10 @@ class Fn:
                     narrowed.append((env2[p][0], v))
                     env2[p] = (v, env2[p][1][1])
                     continue
-            t, ty = self.expr(c, env2, [], True)
-            if ty != B:
-                raise Unsupported("comprehension condition")
+            h3 = []
+            t = self.test(c, env2, h3)
+            if h3:
+                raise Unsupported("failing computation in a comprehension condition")
             conds.append(t)
         elt, tel = self.expr(e.elt, env2, [], True)
         if tel == LIT:
@@ -568,6 +608,43 @@ class Fn:
             return f"(py_set {txt})", ("S", Z)
         return txt, L(tel)
 
+    # ---- boolean contexts: Python truthiness of typed values
+    def truthy(self, t, ty):
+        if ty == B:
+            return t
+        if ty == LIT:
+            return "true" if Fraction(t) != 0 else "false"
+        if ty == Q:
+            return f"(negb (qeqb {t} 0))"
+        if ty == Z:
+            return f"(negb ({t} =? 0)%Z)"
+        if ty == N:
+            return f"(negb (Nat.eqb {t} 0))"
+        if isinstance(ty, tuple) and ty[0] in ("L", "S"):
+            return f"(negb ((py_len {t}) =? 0)%Z)"
+        if isinstance(ty, tuple) and ty[0] == "O" and ty[1] is not None:
+            return f"(match {t} with Some v_ => {self.truthy('v_', ty[1])} | None => false end)"
+        raise Unsupported(f"truth value of a {ty}")
+
+    def test(self, e, env, hoist):
+        """an expression in a boolean context (an `if` test, an operand of not / and / or in one)"""
+        if isinstance(e, ast.UnaryOp) and isinstance(e.op, ast.Not):
+            return f"(negb {self.test(e.operand, env, hoist)})"
+        if isinstance(e, ast.BoolOp):
+            op = "&&" if isinstance(e.op, ast.And) else "||"
+            parts = []
+            for i, v in enumerate(e.values):
+                h2 = []
+                parts.append(self.test(v, env, h2))
+                if h2:
+                    if i == 0:
+                        hoist.extend(h2)
+                    else:
+                        raise Unsupported("failing computation under short-circuit operator")
+            return "(" + f" {op} ".join(parts) + ")"
+        t, ty = self.expr(e, env, hoist)
+        return self.truthy(t, ty)
+
     def compare(self, op, l, r, env, hoist, pure):
         # None tests
         if isinstance(op, (ast.Is, ast.IsNot)):
@@ -579,6 +656,9 @@ class Fn:
             raise Unsupported("is / is not")
         a, ta = self.expr(l, env, hoist, pure)
         b, tb = self.expr(r, env, hoist, pure)
+        if isinstance(op, (ast.In, ast.NotIn)) and isinstance(tb, tuple) and tb[0] == "D" and ta == tb[1] == Z:
+            txt = f"(py_dict_mem {a} {b})"
+            return txt if isinstance(op, ast.In) else f"(negb {txt})"
         if isinstance(op, (ast.In, ast.NotIn)) and ta == Z and tb in (L(Z), ("S", Z)):
             txt = f"(memz {a} {b})"
             return txt if isinstance(op, ast.In) else f"(negb {txt})"
@@ -644,6 +724,21 @@ class Fn:
             if tb != B:
                 raise Unsupported("any/all of non-bool")
             return f"({'existsb' if fname == 'any' else 'forallb'} (fun {v} => {body}) {it})", B
+        if isinstance(e.func, ast.Attribute) and e.func.attr in ("issuperset", "issubset", "isdisjoint") and len(e.args) == 1 and not e.keywords:
+            h2 = []
+            try:
+                recv, tr = self.expr(e.func.value, env, h2, pure)
+            except Unsupported:
+                recv, tr = None, None
+            if tr == ("S", Z) and not h2:
+                a, ta = self.expr(e.args[0], env, hoist, pure)
+                if ta not in (L(Z), ("S", Z)):
+                    raise Unsupported("set method on something else than identifiers")
+                if e.func.attr == "issuperset":
+                    return f"(subsetz {a} {recv})", B
+                if e.func.attr == "issubset":
+                    return f"(subsetz {recv} {a})", B
+                return f"(negb (existsb (fun x_ => memz x_ {a}) {recv}))", B
         calls = self.iface.get("calls", {})
         if fname in calls:
             spec = calls[fname]
@@ -752,7 +847,9 @@ class Fn:
                 raise Unsupported("assignment target")
 
         for s in stmts:
-            if isinstance(s, ast.AnnAssign) and s.value is not None:
+            if isinstance(s, ast.Expr) and isinstance(s.value, ast.Call) and isinstance(s.value.func, ast.Attribute) and s.value.func.attr in ("append", "extend") and isinstance(s.value.func.value, ast.Name):
+                tgt(s.value.func.value)
+            elif isinstance(s, ast.AnnAssign) and s.value is not None:
                 tgt(s.target)
             elif isinstance(s, ast.Assign):
                 for t in s.targets:
@@ -813,7 +910,7 @@ class Fn:
         if isinstance(s, ast.Return):
             if mode not in ("fn", "fold"):
                 raise Unsupported("return inside a loop body")
-            okr = (lambda x: f"Ok (LRet {x})") if mode == "fold" else (lambda x: f"Ok {x}")
+            okr = (lambda x: f"Ok (BRet {x})") if mode == "fold" else (lambda x: f"Ok {x}")
             if s.value is None or (isinstance(s.value, ast.Constant) and s.value.value is None):
                 if isinstance(self.ret, tuple) and self.ret[0] == "O":
                     return okr("None")
@@ -841,6 +938,8 @@ class Fn:
                 return self.wrap(hoist, f"({last[1]})", mode)
             return self.wrap(hoist, f"Ok {t}", mode)
         if isinstance(s, ast.Break):
+            if mode == "fold":
+                return self.fold_k[-1](env).replace("Ok (BNext ", "Ok (BBreak ", 1)
             if mode != "loop":
                 raise Unsupported("break outside a generator loop")
             return "SBreak"
@@ -850,6 +949,27 @@ class Fn:
             if mode != "each":
                 raise Unsupported("continue")
             return "Ok tt"
+        if (isinstance(s, ast.Expr) and isinstance(s.value, ast.Call) and isinstance(s.value.func, ast.Attribute)
+                and s.value.func.attr in ("append", "extend") and isinstance(s.value.func.value, ast.Name)
+                and s.value.func.value.id in env and isinstance(env[s.value.func.value.id][1], tuple) and env[s.value.func.value.id][1][0] == "L"
+                and len(s.value.args) == 1 and not s.value.keywords):
+            x = s.value.func.value.id
+            hoist = []
+            v, tv = self.expr(s.value.args[0], env, hoist)
+            if tv == LIT:
+                v, tv = qlit(v), Q
+            et = env[x][1][1]
+            if s.value.func.attr == "append":
+                if et is not None and tv != et:
+                    raise Unsupported("append of another element type")
+                new, nt = f"({env[x][0]} ++ [{v}])", ("L", tv)
+            else:
+                if not (isinstance(tv, tuple) and tv[0] == "L") or (et is not None and tv[1] is not None and tv[1] != et):
+                    raise Unsupported("extend with something else than a list of the same type")
+                new, nt = f"({env[x][0]} ++ {v})", ("L", et if et is not None else tv[1])
+            env2 = dict(env)
+            env2[x] = (x, nt)
+            return self.wrap(hoist, f"let {x} := {new} in\n{cont(env2)}", mode)
         if isinstance(s, ast.Expr) and isinstance(s.value, ast.Call):
             hoist = []
             t, ty = self.expr(s.value, env, hoist)
@@ -999,7 +1119,12 @@ class Fn:
                     raise Unsupported(f"{n} not defined on every path")
                 ty = env_b[n][1]
                 if n in types and types[n] != ty:
-                    raise Unsupported(f"{n} has different types on different paths")
+                    if types[n] == ("L", None) and isinstance(ty, tuple) and ty[0] == "L":
+                        pass
+                    elif ty == ("L", None) and isinstance(types[n], tuple) and types[n][0] == "L":
+                        ty = types[n]
+                    else:
+                        raise Unsupported(f"{n} has different types on different paths")
                 types[n] = ty
             if both and rest:
                 arg = "(" + ", ".join(env_b[n][0] for n in live) + ")" if live else "tt"
@@ -1036,12 +1161,34 @@ class Fn:
             b = self.block(none_stmts, dict(env), join_k, mode)
             core = f"match {tx} with\n| Some {vname} =>\n{a}\n| None =>\n{b}\nend"
         else:
-            c, tc = self.expr(s.test, env, hoist)
-            if tc != B:
-                raise Unsupported("if on a non-boolean (truthiness is not modelled)")
-            a = self.block(s.body, dict(env), join_k, mode)
-            b = self.block(s.orelse, dict(env), join_k, mode)
-            core = f"if {c}\nthen {a}\nelse {b}"
+            tn = None  # `if x:` / `if not x:` on an optional: the truthy branch sees the value
+            if isinstance(s.test, ast.Name):
+                tn = (s.test.id, True)
+            elif isinstance(s.test, ast.UnaryOp) and isinstance(s.test.op, ast.Not) and isinstance(s.test.operand, ast.Name):
+                tn = (s.test.operand.id, False)
+            if tn and tn[0] in env and isinstance(env[tn[0]][1], tuple) and env[tn[0]][1][0] == "O" and env[tn[0]][1][1] is not None:
+                x, positive = tn
+                tx, ty = env[x]
+                vname = f"{x}_v"
+                envS = dict(env)
+                envS[x] = (vname, ty[1])
+                t_stmts, f_stmts = (s.body, s.orelse) if positive else (s.orelse, s.body)
+
+                def drop_t(env_b):
+                    e2 = dict(env_b)
+                    if e2.get(x, (None,))[0] == vname:
+                        e2[x] = env[x]
+                    return join_k(e2)
+
+                a = self.block(t_stmts, envS, drop_t, mode)
+                b1 = self.block(f_stmts, dict(env), join_k, mode)
+                b2 = self.block(f_stmts, dict(env), join_k, mode)
+                core = f"match {tx} with\n| Some {vname} =>\nif {self.truthy(vname, ty[1])}\nthen {a}\nelse {b1}\n| None =>\n{b2}\nend"
+            else:
+                c = self.test(s.test, env, hoist)
+                a = self.block(s.body, dict(env), join_k, mode)
+                b = self.block(s.orelse, dict(env), join_k, mode)
+                core = f"if {c}\nthen {a}\nelse {b}"
         if both and rest:
             env_after = dict(env)
             for n in live:
@@ -1075,7 +1222,7 @@ class Fn:
         if not (isinstance(tit, tuple) and tit[0] == "L"):
             raise Unsupported("for over a non-list")
         state = [n for n in self.assigned(s.body) if n in env]
-        has_return = any(isinstance(x, ast.Return) for st in s.body for x in ast.walk(st))
+        has_return = any(isinstance(x, (ast.Return, ast.Break)) for st in s.body for x in ast.walk(st))
         if state or has_return:
             return self.fold_for(s, rest, env, k, mode, hoist, it, tit, state)
         env2 = dict(env)
@@ -1104,6 +1251,7 @@ class Fn:
                     cn = f"{target.id}_{f}".replace(".", "_")
                     env2[f"{target.id}.{f}"] = (cn, ft)
                     names.append(cn)
+                env2[target.id] = (names[0] if len(names) == 1 else "(" + ", ".join(names) + ")", et)  # the record as a whole
                 if len(names) == 1:
                     return names[0], "", ""
                 return f"'({', '.join(names)})", "", ""
@@ -1133,11 +1281,15 @@ class Fn:
         st_pat = ("'(" + ", ".join(state) + ")") if len(state) > 1 else (state[0] if state else "_")
         st_val = lambda e: ("(" + ", ".join(e[n][0] for n in state) + ")") if state else "tt"
 
+        final = {}
+
         def k_body(e):
             for n in state:
-                if e[n][1] != env[n][1]:
+                if isinstance(e[n][1], tuple) and e[n][1][0] == "L" and e[n][1][1] is not None:
+                    final[n] = e[n][1]
+                if e[n][1] != env[n][1] and not (env[n][1] == ("L", None) and isinstance(e[n][1], tuple) and e[n][1][0] == "L"):
                     raise Unsupported(f"loop changes the type of {n}")
-            return f"Ok (LDone {st_val(e)})"
+            return f"Ok (BNext {st_val(e)})"
 
         self.fold_k.append(k_body)
         try:
@@ -1150,9 +1302,12 @@ class Fn:
         for n in self.assigned(s.body):
             if n not in state:
                 env_after.pop(n, None)
+        sty = {n: (final.get(n, env[n][1]) if env[n][1] == ("L", None) else env[n][1]) for n in state}
+        for n in state:
+            env_after[n] = (env[n][0], sty[n])
         after = self.block(rest, env_after, k, mode)
-        ret_branch = "Ok (LRet v_)" if mode == "fold" else "Ok v_"
-        st_ty = coq_type(T(*[env[n][1] for n in state])) if len(state) > 1 else (coq_type(env[state[0]][1]) if state else "unit")
+        ret_branch = "Ok (BRet v_)" if mode == "fold" else "Ok v_"
+        st_ty = coq_type(T(*[sty[n] for n in state])) if len(state) > 1 else (coq_type(sty[state[0]]) if state else "unit")
         loop = (f"fold_loop (S := {st_ty}) (R := {coq_type(self.ret)}) {it} {st_val(env)} (fun {st_pat} {binder} =>\n{opening}{body}{closing})")
         return self.wrap(hoist, f"bind ({loop}) (fun r_ =>\nmatch r_ with\n| LRet v_ => {ret_branch}\n| LDone {st_pat} =>\n{after}\nend)", mode)
 
@@ -1238,7 +1393,22 @@ class Fn:
                 return "Ok tt"
             raise Unsupported("function can fall off its end")
 
-        body = self.block(list(node.body), env, off_end, "fn")
+        stmts = list(node.body)
+        if iface.get("yields"):  # a generator that is not the count() idiom: collect what it yields, in order
+            class _Y(ast.NodeTransformer):
+                def visit_Expr(self, n):
+                    if isinstance(n.value, ast.Yield):
+                        return ast.Expr(value=ast.Call(func=ast.Attribute(value=ast.Name(id="yielded_", ctx=ast.Load()), attr="append", ctx=ast.Load()), args=[n.value.value], keywords=[]))
+                    return n
+
+                def visit_FunctionDef(self, n):
+                    return n
+
+            stmts = [ast.Assign(targets=[ast.Name(id="yielded_", ctx=ast.Store())], value=ast.List(elts=[], ctx=ast.Load()))] + [_Y().visit(x) for x in stmts] + [ast.Return(value=ast.Name(id="yielded_", ctx=ast.Load()))]
+            has_value_return = True
+            if self.ret == U:
+                self.ret = parse_type(iface["ret"])
+        body = self.block(stmts, env, off_end, "fn")
         if self.ret is None:
             raise Unsupported("no return type")
         ps = " ".join([f"({n} : {t})" for n, t in getattr(self, "raw_params", [])] + [f"({n} : {coq_type(t)})" for n, t in params])
@@ -1360,6 +1530,7 @@ def generate(src_root: Path) -> tuple[str, dict]:
     def unit(name, rel, qual, iface, fallback=None):
         try:
             ctx = Ctx(src_root, rel, tree(rel), qual.split(".")[0] if "." in qual else None, name, iface.get("consts", {}), tree)
+            ctx.calls, ctx.strings = iface.get("calls", {}), iface.get("strings", {})
             fn = Fn(find_function(tree(rel), qual), iface, name, ctx)
             txt = fn.translate()
             report["units"][name] = "translated"
@@ -1512,6 +1683,11 @@ def generate(src_root: Path) -> tuple[str, dict]:
     unit("Clip__validate_times", "data/clips.py", "Clip._validate_times",
          {"attrs": {"values.start_time": "Q", "values.end_time": "Q"}, "consts": {"values": ("tt", "U")}, "ret": "U"})
 
+    # ---- C08 / C09: which clips are evaluated (a clip prediction / annotation is represented by (clip uuid, own id))
+    cobj = "R{clip.uuid:Z;uuid:Z}"
+    unit("iterate_over_valid_clips", "evaluation/tasks/common.py", "iterate_over_valid_clips",
+         {"params": {"clip_predictions": f"L({cobj})", "clip_annotations": f"L({cobj})"}, "yields": True, "ret": f"L(T({cobj},{cobj}))"})
+
     # ---- C05: compute_geometric_features: the nine per-type functions and the dispatch table
     rel = "geometry/features.py"
     TERMS = {"terms.duration": ("Duration", "Fname"), "terms.low_freq": ("LowFreq", "Fname"), "terms.high_freq": ("HighFreq", "Fname"),
@@ -1564,6 +1740,7 @@ def generate(src_root: Path) -> tuple[str, dict]:
             cname = "features" + vx.id
             if vx.id not in seen:
                 ctx = Ctx(src_root, rel, ft, None, cname, TERMS, tree)
+                ctx.calls = fcalls
                 t_ = Fn(fnode, iface, cname, ctx).translate()
                 defs.extend(ctx.emitted + [t_])
                 seen[vx.id] = True
